@@ -280,7 +280,16 @@ Section Replay.
     match e with
     | EvRelease => option_map (pair base) (fire LRelease s)
     | EvAddStarts l =>
-        if list_eqb rinfo_eqb l (map start_info starts) then option_map (pair base) (fire LAddStarts s) else None
+        (* InputURLTask: one add_many transaction per batch of the input; after the last one the start-up completes *)
+        if list_eqb rinfo_eqb l (map start_info starts) && (st_batch s =? 0)%nat then option_map (pair base) (fire LAddStarts s)
+        else
+          let n := length l in
+          if list_eqb rinfo_eqb l (map start_info (firstn n (skipn (st_batch s) starts))) then
+            match fire (LAddBatch n) s with
+            | Some s1 => if (st_batch s1 =? length starts)%nat then option_map (pair base) (fire LAddStarts s1) else Some (base, s1)
+            | None => None
+            end
+          else None
     | EvCheckout u =>
         match pick (st_tbl s) with
         | Some r => if r_url r =? u then option_map (pair base) (fire LCheckout s) else None
